@@ -461,4 +461,263 @@ theorem takeLoop_run (S : Schema) (d : Dfa) (fty : TypeId) (os : Nat) (oec : Int
         exact e2
       · exact takeLoop_run S d fty os oec total rest' _ q _ tk h
 
+/-! ### `place_nodes` when it pushes no open end -/
+
+theorem pushOpenEnd_len (S : Schema) : ∀ (n : Nat) (cur : List Node) (fr fr' : List FItem),
+    pushOpenEnd S n cur fr = .ok fr' → fr'.length = fr.length + n
+  | 0, cur, fr, fr', h => by
+    have := pure_ok h
+    subst this; rfl
+  | n + 1, cur, fr, fr', h => by
+    unfold pushOpenEnd at h
+    split at h
+    · simp [throw, throwThe, MonadExceptOf.throw] at h
+    · rename_i node _
+      obtain ⟨q, _, h⟩ := FM.bind_ok h
+      have := pushOpenEnd_len S n node.kids _ fr' h
+      simp at this
+      omega
+
+theorem take_succ_of_getElem? {α : Type} (l : List α) (n : Nat) (x : α) (h : l[n]? = some x) :
+    l.take (n + 1) = l.take n ++ [x] := by
+  rw [List.take_succ, h]; rfl
+
+theorem set_self_of_getElem? {α : Type} : ∀ (l : List α) (n : Nat) (x : α), l[n]? = some x → l.set n x = l
+  | [], _, _, h => by simp at h
+  | a :: l, 0, x, h => by simp at h; simp [h]
+  | a :: l, n + 1, x, h => by
+    simp only [List.getElem?_cons_succ] at h
+    simp [set_self_of_getElem? l n x h]
+
+theorem set_append_last {α : Type} (pre : List α) (x y : α) : (pre ++ [x]).set pre.length y = pre ++ [y] := by
+  induction pre with
+  | nil => rfl
+  | cons a l ih => simp [ih]
+
+/-- **`place_nodes` keeps the frontier coherent with `placed`** — partial: the case in which it pushes
+    no open end onto the frontier (`open_end_count ≤ 0`, stated on the result: the new frontier is not
+    longer than the fittable's depth plus the wrappers).  MISSING: the case `open_end_count > 0`, where
+    the pushed entries carry `content_match_at(child_count)` of the *slice's* nodes and coherence needs
+    that `close_node_start` added no fill in front of them (`fill_before` answers the empty filling when
+    the children match as they are). -/
+theorem placeNodes_coh_partial {S : Schema} (hts : TextStableP S) (hdet : DetS S) (hf : FillersOK S) (hw : WrapOK S)
+    (hlab : LabelsOK S) (D g : Nat) (base : List FItem) (st : FitState) (inv : InStep st)
+    (hcoh : Coh S D g base 0 st.frontier st.placed)
+    (f : Fittable) (hfit : findFittable S st = .ok (some f)) (st' : FitState)
+    (h : placeNodes S st f = .ok st')
+    (hnopush : st'.frontier.length ≤ f.frontierDepth + 1 + (f.wrap.getD []).length) :
+    ∃ g', g' ≤ g ∧ Coh S D g' base 0 st'.frontier st'.placed := by
+  obtain ⟨lvl, it, hsd, hlvl, hpar, hit, kind, _⟩ := findFittable_kind S st f hfit
+  have hfragment := fragment_eq_lvl hlvl hpar
+  have hfdlt : f.frontierDepth < st.frontier.length := by
+    rcases Nat.lt_or_ge f.frontierDepth st.frontier.length with h1 | h1
+    · exact h1
+    · rw [List.getElem?_eq_none h1] at hit; simp at hit
+  obtain ⟨c1, hc1, hc1f, hc1s⟩ := closeMany_ok S hdet hf (st.frontier.length - 1 - f.frontierDepth)
+    st.frontier st.placed inv.frok (by omega) inv.sp
+  let pre := st.frontier.take f.frontierDepth
+  have hprelen : pre.length = f.frontierDepth := by
+    simp only [pre, List.length_take]; omega
+  have hc1f' : c1.1 = pre ++ [it] := by
+    rw [hc1f, show st.frontier.length - (st.frontier.length - 1 - f.frontierDepth) = f.frontierDepth + 1 by omega]
+    exact take_succ_of_getElem? _ _ _ hit
+  have hc1len : c1.1.length = f.frontierDepth + 1 := by rw [hc1f']; simp [hprelen]
+  have hc1ok : FrOK c1.1 := by rw [hc1f]; exact inv.frok.take _
+  have hc1last : c1.1.getLast? = some it := by rw [hc1f']; simp
+  obtain ⟨q, hq⟩ := inv.frok it (List.mem_of_getElem? hit)
+  -- coherence after closing, with the ghost level cut down to the fittable's depth
+  have hcoh1 : Coh S D (min g f.frontierDepth) base 0 c1.1 c1.2 := by
+    refine Coh_congr_g S D g _ base c1.1 0 c1.2 ?_ (closeMany_coh S D g base _ _ _ c1 hc1 hcoh)
+    intro j _ hj
+    rw [hc1len] at hj
+    omega
+  have hchain : ChainFrom S (S.dfa it.ty) q (f.wrap.getD []) := by
+    cases kind with
+    | direct _ _ _ _ _ _ hwn => rw [hwn]; trivial
+    | inject _ _ _ _ _ _ _ hwn => rw [hwn]; trivial
+    | empty _ _ _ _ hwn => rw [hwn]; trivial
+    | wrap fst q' w hfst hq' hfw _ hwn =>
+      rw [hwn]
+      rw [hq] at hq'
+      simp only [Option.some.injEq] at hq'
+      subst hq'
+      exact findWrappingTypes_chain S _ _ _ w hfw
+  obtain ⟨c2, hc2, hc2ok, hc2len, hc2s, _, hc2pre, hc2top⟩ :=
+    openMany_ok S hw (f.wrap.getD []) c1.1 c1.2 it q hc1last hq hchain hc1ok hc1s
+  rw [hc1len] at hc2len hc2top
+  simp only [Nat.add_sub_cancel] at hc2top
+  have hcoh2 : Coh S D (min g f.frontierDepth) base 0 c2.1 c2.2 := by
+    have h2 := hc2
+    rw [hc1f'] at h2
+    refine openMany_coh hts D _ base (f.wrap.getD []) pre it c1.2 q hq hchain (by rw [hprelen]; omega) c2 h2 ?_
+    rw [← hc1f']; exact hcoh1
+  have hitem : ∃ item q0, c2.1[f.frontierDepth]? = some item ∧ item.st = some q0 ∧ item.ty = it.ty ∧
+      (f.wrap.getD [] = [] → item = it ∧ q0 = q) ∧
+      (∀ w0 rest, f.wrap.getD [] = w0 :: rest → (S.dfa it.ty).matchType q w0 = some q0) := by
+    cases hws : f.wrap.getD [] with
+    | nil =>
+      rw [hws] at hc2
+      have := pure_ok hc2
+      subst this
+      have : c1.1[f.frontierDepth]? = some it := by rw [hc1f']; simp [← hprelen]
+      exact ⟨it, q, this, hq, rfl, fun _ => ⟨rfl, rfl⟩, fun _ _ h => by simp at h⟩
+    | cons w0 rest =>
+      have htop := hc2top w0 rest hws
+      rw [hws] at hchain
+      obtain ⟨q', hq'⟩ := Option.isSome_iff_exists.1 hchain.2.1
+      refine ⟨_, q', htop, by simp [hq'], rfl, fun h => by simp at h, ?_⟩
+      intro w0' rest' h
+      simp only [List.cons.injEq] at h
+      rw [← h.1]; exact hq'
+  obtain ⟨item0, q00, hitem0, hitq0, hitty0, hq0nil, hq0cons⟩ := hitem
+  unfold placeNodes at h
+  rw [FM.bind_eq hc1, FM.bind_eq hc2] at h
+  simp only [hfragment] at h
+  obtain ⟨item, hgi, h⟩ := FM.bind_ok h
+  have hie : item = item0 := by
+    have := getItem_ok hgi
+    rw [hitem0] at this
+    simpa using this.symm
+  subst hie
+  obtain ⟨q0, hgs, h⟩ := FM.bind_ok h
+  have hq0e : q0 = q00 := by
+    have := getSt_ok hgs
+    rw [hitq0] at this
+    simpa using this.symm
+  subst hq0e
+  obtain ⟨q1, hq1, h⟩ := FM.bind_ok h
+  have hq1 := liftRaise_ok hq1
+  obtain ⟨tk, htk, h⟩ := FM.bind_ok h
+  obtain ⟨p, hp, h⟩ := FM.bind_ok h
+  obtain ⟨top, _, h⟩ := FM.bind_ok h
+  obtain ⟨c3, hc3, h⟩ := FM.bind_ok h
+  obtain ⟨fr4, hpush, h⟩ := FM.bind_ok h
+  obtain ⟨u', _, h⟩ := FM.bind_ok h
+  have := pure_ok h
+  subst this
+  simp only at hnopush ⊢
+  have hset_len : (c2.1.set f.frontierDepth ⟨item.ty, some tk.2.1⟩).length = c2.1.length := List.length_set
+  have hset_ok : FrOK (c2.1.set f.frontierDepth ⟨item.ty, some tk.2.1⟩) := FrOK_set hc2ok _ _ ⟨_, rfl⟩
+  cases hws : f.wrap.getD [] with
+  | cons w0 rest =>
+    rw [hws] at hnopush hc2len
+    -- wrappers were opened: nothing is taken, the frontier entry keeps its match
+    have hnothing : tk = (0, q1, []) ∧ lvl.2 ≠ [] ∧ q1 = q0 := by
+      cases kind with
+      | direct _ _ _ _ _ _ hwn => rw [hwn] at hws; simp at hws
+      | inject _ _ _ _ _ _ _ hwn => rw [hwn] at hws; simp at hws
+      | empty _ _ _ _ hwn => rw [hwn] at hws; simp at hws
+      | wrap fst q' w hfst hq' hfw hinj hwn =>
+        rw [hwn] at hws
+        simp only [Option.getD_some] at hws
+        subst hws
+        rw [hq] at hq'
+        simp only [Option.some.injEq] at hq'
+        subst hq'
+        obtain ⟨rest', hl2⟩ : ∃ rest', lvl.2 = fst :: rest' := by
+          cases hl : lvl.2 with
+          | nil => rw [hl] at hfst; simp at hfst
+          | cons a l => rw [hl] at hfst; simp at hfst; subst hfst; exact ⟨l, rfl⟩
+        have hm0 := hq0cons w0 rest (by rw [hwn]; rfl)
+        have hnm : (S.dfa it.ty).matchType q0 (S.tyOf fst) = none := by
+          by_cases hx : S.tyOf fst < S.nodes.size
+          · exact hw.2 it.ty q (S.tyOf fst) w0 rest q0 hx hfw hm0
+          · cases hmm : (S.dfa it.ty).matchType q0 (S.tyOf fst) with
+            | none => rfl
+            | some y => exact absurd (hlab it.ty q0 _ (Dfa.mem_of_matchType hmm)) hx
+        have hq1' : q1 = q0 := by
+          rw [hinj] at hq1
+          simpa [Schema.types, Dfa.run] using hq1.symm
+        rw [hl2, hinj, hq1', hitty0, takeLoop_nomatch S _ _ _ _ _ fst rest' 0 q0 _ hnm] at htk
+        have := pure_ok htk
+        rw [hl2, ← this, hq1']
+        exact ⟨rfl, by simp, rfl⟩
+    obtain ⟨htk0, hlne, hq10⟩ := hnothing
+    subst htk0
+    subst hq10
+    have hsp' : rspineOK f.frontierDepth c2.2 := rspineOK_le _ _ _ (by rw [hc2len]; simp only [List.length_cons]; omega) hc2s
+    have hpe : p = c2.2 := by
+      have := addToFragment_nil _ _ hsp'
+      simp only [fromArray, addNodes, List.foldl_nil] at hp
+      rw [this] at hp
+      simpa using hp.symm
+    subst hpe
+    have hsetid : c2.1.set f.frontierDepth ⟨item.ty, some q1⟩ = c2.1 := by
+      have : (⟨item.ty, some q1⟩ : FItem) = item := by
+        cases item with
+        | mk ty st => simp only at hitq0; rw [hitq0]
+      rw [this]
+      exact set_self_of_getElem? _ _ _ hitem0
+    rw [hsetid] at hc3
+    have hte : ((0 : Nat) == lvl.2.length) = false := by
+      cases hl : lvl.2 with
+      | nil => exact absurd hl hlne
+      | cons a l => rfl
+    simp only [hte, Bool.false_and, Bool.false_eq_true, if_false] at hc3 hpush
+    have := pure_ok hc3
+    subst this
+    have e0 : (-1 : Int).toNat = 0 := rfl
+    rw [e0] at hpush
+    have := pure_ok hpush
+    subst this
+    exact ⟨_, Nat.min_le_left _ _, hcoh2⟩
+  | nil =>
+    rw [hws] at hnopush hc2len
+    simp only [List.length_nil, Nat.add_zero] at hnopush hc2len
+    obtain ⟨hie, hqe⟩ := hq0nil hws
+    subst hie
+    subst hqe
+    have hc2e : c2 = c1 := by
+      rw [hws] at hc2
+      exact (pure_ok hc2).symm
+    subst hc2e
+    -- what was added and the match after it
+    obtain ⟨added, ha1, ha2⟩ := takeLoop_run S _ _ _ _ _ _ _ _ _ tk htk
+    have hrun : (S.dfa item.ty).run q0 (S.types tk.2.2) = some tk.2.1 := by
+      rw [ha1, types_append, Dfa.run_append, hq1]
+      exact ha2
+    have hfr3 : c2.1.set f.frontierDepth ⟨item.ty, some tk.2.1⟩ = pre ++ [⟨item.ty, some tk.2.1⟩] := by
+      rw [hc1f', ← hprelen]
+      exact set_append_last pre item _
+    have hcoh3 : Coh S D (min g f.frontierDepth) base 0 (pre ++ [⟨item.ty, some tk.2.1⟩]) p := by
+      have hp' := hp
+      rw [← hprelen] at hp'
+      refine Coh_top S D _ base (fromArray tk.2.2) item [⟨item.ty, some tk.2.1⟩]
+        (by intro x hx; simp at hx; rw [← hx]) (by simp) pre 0 c2.2 p hp' (by rw [← hc1f']; exact hcoh1) ?_
+      intro F hF
+      exact Coh_base_add hts D _ base _ item q0 tk.2.1 tk.2.2 F hF hitq0 hrun
+    rw [hfr3] at hc3
+    cases hk : ((if (tk.1 == lvl.2.length) = true then
+        ((fsize lvl.2 : Int) + f.sliceDepth) - ((fsize st.unplaced.content : Int) - st.unplaced.openEnd)
+        else -1) : Int).toNat with
+    | zero =>
+      rw [hk] at hpush
+      have := pure_ok hpush
+      subst this
+      rcases ite_ok_cases hc3 with ⟨_, hc3'⟩ | ⟨_, hc3'⟩
+      · obtain ⟨_, e2⟩ := closeFrontierNode_coh S D _ base _ p c3 hc3' hcoh3
+        exact ⟨_, Nat.min_le_left _ _, e2⟩
+      · have := pure_ok hc3'
+        subst this
+        exact ⟨_, Nat.min_le_left _ _, hcoh3⟩
+    | succ k =>
+      exfalso
+      have hte : (tk.1 == lvl.2.length) = true := by
+        cases hb : (tk.1 == lvl.2.length) with
+        | true => rfl
+        | false => rw [hb] at hk; simp at hk
+      rw [hte] at hk
+      simp only [if_true] at hk
+      have hoec : ((fsize lvl.2 : Int) + f.sliceDepth) - ((fsize st.unplaced.content : Int) - st.unplaced.openEnd)
+          = ((k + 1 : Nat) : Int) := by omega
+      simp only [hte, if_true, hoec] at hc3 hpush
+      have hnn : ¬ (((k + 1 : Nat) : Int) < 0) := by omega
+      simp only [hnn, decide_false, Bool.false_and, Bool.and_false, Bool.false_eq_true, if_false] at hc3
+      have := pure_ok hc3
+      subst this
+      simp only [Int.toNat_natCast] at hpush
+      have hl4 := pushOpenEnd_len S (k + 1) lvl.2 _ fr4 hpush
+      simp only [List.length_append, List.length_singleton, hprelen] at hl4
+      omega
+
 end PM
